@@ -499,7 +499,11 @@ def build(prog, spec=None, input_kind="asarray"):
         data = input_data(tuple(i["shape"]), i["dtype"], i["seed"])
         env[i["var"]] = xp.asarray(data, chunks=tuple(i["chunks"]), spec=spec)
     for s in prog["stmts"]:
-        env[s["var"]] = T[s["op"]][2](xp, cubed, [env[a] for a in s["args"]], s["kw"])
+        try:
+            env[s["var"]] = T[s["op"]][2](xp, cubed, [env[a] for a in s["args"]], s["kw"])
+        except Exception as e:
+            e._verif_stmt = s
+            raise
     return env
 
 
